@@ -11,6 +11,7 @@ import (
 	"syscall"
 	"testing"
 	"testing/synctest"
+	"time"
 
 	"verif/harness/mon"
 )
@@ -45,6 +46,7 @@ func TestBubble(t *testing.T) {
 		a.Stride = 1
 	}
 	mon.Open()
+	mon.StartDeadlockWatch(a.Prop, a.Engine, 12*time.Second, func() { syscall.Exit(0) })
 	synctest.Test(t, func(t *testing.T) {
 		run(a)
 		mon.Done(a.Engine)
